@@ -311,7 +311,7 @@ pub fn one_case(rng: &mut Rng, sink: &mut Sink, emit: bool) {
 /// the pieces), CR (written as `&#xD;` BETWEEN two sections), the characters escaped in text but not in a
 /// section (`&`, `<`), ordinary letters.
 fn border_text(rng: &mut Rng) -> String {
-    const PIECES: [&str; 16] = ["]", "]]", "]]>", ">", "]>", "]]]", "]]]]>", ">>", "a", "b c", "\r", "\r\n", "&", "<", "]]>]]>", "\n"];
+    const PIECES: [&str; 19] = ["]", "]]", "]]>", ">", "]>", "]]]", "]]]]>", ">>", "a", "b c", "\r", "\r\n", "&", "<", "]]>]]>", "\n", "<![CDATA[", "<![CDATA[]]>", "&#xD;"];
     let n = 1 + rng.below(5);
     let mut s = String::new();
     for _ in 0..n {
